@@ -193,6 +193,7 @@ Definition raw_cell (it : fitem) : list fcell :=
   | FShared p _ _ _ _ | FArray p _ _ _ _ => [(p, [], Some p)]
   | FMember p _ first => [(p, [], Some first)]
   | FOther _ _ => []
+  | FSub _ _ => []
   end.
 Definition raw_shared (it : fitem) : list (pos * list N) :=
   match it with
@@ -206,37 +207,58 @@ Notation wfi := (wf_fitem sheets names xtis).
 Lemma refu_length : forall rng, length (enc_refu rng) = 6%nat.
 Proof. intros [[[r0 r1] c0] c1]. unfold enc_refu. rewrite !app_length, !le_length. reflexivity. Qed.
 
-Lemma loop_enc : forall l st, forallb wfi l = true ->
-  exists p', loop (flat_map enc_fitem l) st
-  = Ok {| fs_pos := p'; fs_cells := fs_cells st ++ flat_map raw_cell l;
-          fs_shared := rev (flat_map raw_shared l) ++ fs_shared st |}.
+(* inside a nested substream with [d] further substreams open in it: whatever the records are
+   (FORMULA, SHRFMLA, ARRAY too), once BOF and EOF balance the loop is back at the depth of the
+   nested substream (2) with the state unchanged *)
+Lemma loop_sub : forall recs d rest st, fbalanced d recs = true ->
+  loop (recs ++ rest) st (2 + N.of_nat d) = loop rest st 2.
 Proof.
-  induction l as [|it l IH]; intros st Hwf.
+  induction recs as [|[t dta] recs IH]; intros d rest st H.
+  - cbn [fbalanced] in H. destruct d; [reflexivity|discriminate].
+  - cbn [fbalanced fst] in H. cbn [app xls_formula_loop].
+    destruct (t =? 0x0809) eqn:E1.
+    + replace (2 + N.of_nat d + 1) with (2 + N.of_nat (S d)) by lia. apply IH, H.
+    + replace (1 <? 2 + N.of_nat d) with true by lia.
+      destruct (t =? 0x000A) eqn:E2.
+      * destruct d as [|d']; [discriminate|].
+        replace (2 + N.of_nat (S d') - 1) with (2 + N.of_nat d') by lia. apply IH, H.
+      * apply IH, H.
+Qed.
+
+Lemma loop_enc : forall l st rest, forallb wfi l = true ->
+  exists p', loop (flat_map enc_fitem l ++ rest) st 1
+  = loop rest {| fs_pos := p'; fs_cells := fs_cells st ++ flat_map raw_cell l;
+                 fs_shared := rev (flat_map raw_shared l) ++ fs_shared st |} 1.
+Proof.
+  induction l as [|it l IH]; intros st rest Hwf.
   - exists (fs_pos st). cbn [flat_map xls_formula_loop rev app]. rewrite app_nil_r. destruct st; reflexivity.
   - cbn [forallb] in Hwf. apply andb_prop in Hwf. destruct Hwf as [Hit Hl].
-    cbn [flat_map]. destruct it as [p hd e|p hd rng cuse e|p hd rng flags e|p hd first|t d]; cbn [wf_fitem] in Hit.
+    cbn [flat_map]. rewrite <- app_assoc.
+    destruct it as [p hd e|p hd rng cuse e|p hd rng flags e|p hd first|t d|bof recs]; cbn [wf_fitem] in Hit.
     + (* FPlain *)
       apply andb_prop in Hit. destruct Hit as [Hit Hsm]. apply andb_prop in Hit. destruct Hit as [Hit Hwe].
       apply andb_prop in Hit. destruct Hit as [Hp Hh]. apply N.ltb_lt in Hsm.
       cbn [enc_fitem app xls_formula_loop]. unfold enc_formula_rec at 1.
+      change (0x0006 =? 0x0809) with false. change (1 <? 1) with false.
       change (0x0006 =? 0x000A) with false. change (0x0006 =? 0x0006) with true. cbn iota.
       change (le 2 (fst p) ++ le 2 (snd p) ++ hd ++ frame_xls (encode_xls e))
         with (snd (enc_formula_rec p hd (frame_xls (encode_xls e)))).
       rewrite formula_rec_enc by assumption.
       rewrite (rpn_correct_xls show_f64 (env None) e Hwe Hsm). cbn [obind].
       rewrite exp_target_plain.
-      destruct (IH {| fs_pos := p; fs_cells := fs_cells st ++ [(p, rend None e, None)]; fs_shared := fs_shared st |} Hl)
+      destruct (IH {| fs_pos := p; fs_cells := fs_cells st ++ [(p, rend None e, None)]; fs_shared := fs_shared st |} rest Hl)
         as [p' E].
       exists p'. rewrite E. cbn [fs_cells fs_shared raw_cell raw_shared app]. rewrite <- app_assoc. reflexivity.
     + (* FShared *)
       apply andb_prop in Hit. destruct Hit as [Hit Hsm]. apply andb_prop in Hit. destruct Hit as [Hit Hwe].
       apply andb_prop in Hit. destruct Hit as [Hp Hh].
       cbn [enc_fitem app xls_formula_loop]. unfold enc_formula_rec at 1.
+      change (0x0006 =? 0x0809) with false. change (1 <? 1) with false.
       change (0x0006 =? 0x000A) with false. change (0x0006 =? 0x0006) with true. cbn iota.
       change (le 2 (fst p) ++ le 2 (snd p) ++ hd ++ cpf_exp p) with (snd (enc_formula_rec p hd (cpf_exp p))).
       rewrite formula_rec_enc by assumption. rewrite parse_exp by exact Hp. cbn [obind].
       rewrite exp_target_exp by exact Hp.
-      change (0x04BC =? 0x000A) with false. change (0x04BC =? 0x0006) with false.
+      change (0x04BC =? 0x0809) with false. change (0x04BC =? 0x000A) with false. change (0x04BC =? 0x0006) with false.
       change (0x04BC =? 0x04BC) with true. cbn [andb].
       assert (Hlen : (8 <=? length (enc_refu rng ++ 0%N :: cuse :: frame_xls (encode_xls e)))%nat = true).
       { apply Nat.leb_le. rewrite !app_length, refu_length. cbn [length]. lia. }
@@ -249,18 +271,19 @@ Proof.
         apply skipn_app_len. }
       rewrite Hsk.
       destruct (IH {| fs_pos := p; fs_cells := fs_cells st ++ [(p, [], Some p)];
-                      fs_shared := (p, frame_xls (encode_xls e)) :: fs_shared st |} Hl) as [p' E].
+                      fs_shared := (p, frame_xls (encode_xls e)) :: fs_shared st |} rest Hl) as [p' E].
       exists p'. rewrite E. cbn [fs_cells fs_shared raw_cell raw_shared app rev].
       rewrite <- !app_assoc. reflexivity.
     + (* FArray *)
       apply andb_prop in Hit. destruct Hit as [Hit Hsm]. apply andb_prop in Hit. destruct Hit as [Hit Hwe].
       apply andb_prop in Hit. destruct Hit as [Hp Hh].
       cbn [enc_fitem app xls_formula_loop]. unfold enc_formula_rec at 1.
+      change (0x0006 =? 0x0809) with false. change (1 <? 1) with false.
       change (0x0006 =? 0x000A) with false. change (0x0006 =? 0x0006) with true. cbn iota.
       change (le 2 (fst p) ++ le 2 (snd p) ++ hd ++ cpf_exp p) with (snd (enc_formula_rec p hd (cpf_exp p))).
       rewrite formula_rec_enc by assumption. rewrite parse_exp by exact Hp. cbn [obind].
       rewrite exp_target_exp by exact Hp.
-      change (0x0221 =? 0x000A) with false. change (0x0221 =? 0x0006) with false.
+      change (0x0221 =? 0x0809) with false. change (0x0221 =? 0x000A) with false. change (0x0221 =? 0x0006) with false.
       change (0x0221 =? 0x04BC) with false. change (0x0221 =? 0x0221) with true. cbn [andb].
       assert (Hlen : (12 <=? length (enc_refu rng ++ le 2 flags ++ 0%N :: 0%N :: 0%N :: 0%N :: frame_xls (encode_xls e)))%nat = true).
       { apply Nat.leb_le. rewrite !app_length, refu_length, le_length. cbn [length]. lia. }
@@ -277,25 +300,35 @@ Proof.
         apply skipn_app_len. }
       rewrite Hsk.
       destruct (IH {| fs_pos := p; fs_cells := fs_cells st ++ [(p, [], Some p)];
-                      fs_shared := (p, frame_xls (encode_xls e)) :: fs_shared st |} Hl) as [p' E].
+                      fs_shared := (p, frame_xls (encode_xls e)) :: fs_shared st |} rest Hl) as [p' E].
       exists p'. rewrite E. cbn [fs_cells fs_shared raw_cell raw_shared app rev].
       rewrite <- !app_assoc. reflexivity.
     + (* FMember *)
       apply andb_prop in Hit. destruct Hit as [Hit Hf]. apply andb_prop in Hit. destruct Hit as [Hp Hh].
       cbn [enc_fitem app xls_formula_loop]. unfold enc_formula_rec at 1.
+      change (0x0006 =? 0x0809) with false. change (1 <? 1) with false.
       change (0x0006 =? 0x000A) with false. change (0x0006 =? 0x0006) with true. cbn iota.
       change (le 2 (fst p) ++ le 2 (snd p) ++ hd ++ cpf_exp first) with (snd (enc_formula_rec p hd (cpf_exp first))).
       rewrite formula_rec_enc by assumption. rewrite parse_exp by exact Hf. cbn [obind].
       rewrite exp_target_exp by exact Hf.
-      destruct (IH {| fs_pos := p; fs_cells := fs_cells st ++ [(p, [], Some first)]; fs_shared := fs_shared st |} Hl)
+      destruct (IH {| fs_pos := p; fs_cells := fs_cells st ++ [(p, [], Some first)]; fs_shared := fs_shared st |} rest Hl)
         as [p' E].
       exists p'. rewrite E. cbn [fs_cells fs_shared raw_cell raw_shared app]. rewrite <- app_assoc. reflexivity.
     + (* FOther *)
-      apply negb_true_iff in Hit. apply orb_false_iff in Hit. destruct Hit as [Hit H221].
+      apply negb_true_iff in Hit. apply orb_false_iff in Hit. destruct Hit as [Hit Hbof].
+      apply orb_false_iff in Hit. destruct Hit as [Hit H221].
       apply orb_false_iff in Hit. destruct Hit as [Hit H4bc]. apply orb_false_iff in Hit. destruct Hit as [H0a H06].
-      cbn [enc_fitem app xls_formula_loop]. rewrite H0a, H06, H4bc, H221. cbn [andb].
-      destruct (IH st Hl) as [p' E]. exists p'. rewrite E. reflexivity.
+      cbn [enc_fitem app xls_formula_loop]. rewrite Hbof, H0a, H06, H4bc, H221. change (1 <? 1) with false. cbn [andb].
+      destruct (IH st rest Hl) as [p' E]. exists p'. rewrite E. reflexivity.
+    + (* FSub: BOF (1 -> 2), the balanced records, EOF (2 -> 1): the state is untouched *)
+      cbn [enc_fitem app xls_formula_loop]. change (0x0809 =? 0x0809) with true. cbv iota.
+      change (1 + 1) with (2 + N.of_nat 0). rewrite <- app_assoc. rewrite loop_sub by exact Hit.
+      cbn [app xls_formula_loop]. change (0x000A =? 0x0809) with false. change (1 <? 2) with true.
+      change (0x000A =? 0x000A) with true. cbv iota. change (2 - 1) with 1.
+      destruct (IH st rest Hl) as [p' E]. exists p'. rewrite E. reflexivity.
 Qed.
+
+
 
 (* ---------- the map of the groups ---------- *)
 Lemma lookup_in : forall m k v, NoDup (map fst m) -> In (k, v) m -> lookup k m = Some v.
@@ -331,7 +364,7 @@ Lemma group_of_some : forall l first b e, group_of l first = Some (b, e) ->
 Proof.
   induction l as [|it l IH]; intros first b e H; [discriminate|].
   cbn [group_of flat_map] in *.
-  destruct it as [p hd e0|p hd rng cuse e0|p hd rng flags e0|p hd f0|t d]; cbn [raw_shared app];
+  destruct it as [p hd e0|p hd rng cuse e0|p hd rng flags e0|p hd f0|t d|bof recs]; cbn [raw_shared app];
     try (destruct (IH _ _ _ H) as (Hin & it' & Hi & Hm); split; [exact Hin|exists it'; split; [right; exact Hi|exact Hm]]).
   - destruct (pos_eqb p first) eqn:E.
     + apply pos_eqb_true in E. subst p. injection H as <- <-. split; [left; reflexivity|].
@@ -347,7 +380,7 @@ Lemma group_of_none : forall l first, group_of l first = None -> ~ In first (fla
 Proof.
   induction l as [|it l IH]; intros first H; [intros []|].
   cbn [group_of flat_map] in *.
-  destruct it as [p hd e0|p hd rng cuse e0|p hd rng flags e0|p hd f0|t d]; cbn [first_of app]; try (apply IH; exact H).
+  destruct it as [p hd e0|p hd rng cuse e0|p hd rng flags e0|p hd f0|t d|bof recs]; cbn [first_of app]; try (apply IH; exact H).
   - destruct (pos_eqb p first) eqn:E; [discriminate|].
     intros [->|Hin]; [|exact (IH _ H Hin)].
     assert (pos_eqb first first = true) by (apply pos_eqb_true; reflexivity). congruence.
@@ -382,7 +415,7 @@ Lemma group_parse : forall l first p b e, forallb wfi l = true ->
 Proof.
   intros l first p b e Hwf G. destruct (group_of_some _ _ _ _ G) as (_ & it & Hin & Hm).
   rewrite forallb_forall in Hwf. specialize (Hwf it Hin).
-  destruct it as [p0 hd e0|p0 hd rng cuse e0|p0 hd rng flags e0|p0 hd f0|t d]; try contradiction;
+  destruct it as [p0 hd e0|p0 hd rng cuse e0|p0 hd rng flags e0|p0 hd f0|t d|bof recs]; try contradiction;
     destruct Hm as (-> & -> & ->); cbn [wf_fitem] in Hwf;
     apply andb_prop in Hwf; destruct Hwf as [Hwf Hsm]; apply andb_prop in Hwf; destruct Hwf as [_ Hwe];
     apply N.ltb_lt in Hsm; unfold group_text; cbn [fst snd].
@@ -399,7 +432,7 @@ Proof.
   assert (Hsub' : forall it0, In it0 l' -> In it0 l) by (intros it0 Hi; apply Hsub; right; exact Hi).
   specialize (IH Hsub'). cbn [flat_map].
   assert (Hit : In it l) by (apply Hsub; left; reflexivity).
-  destruct it as [p hd e|p hd rng cuse e|p hd rng flags e|p hd first|t d];
+  destruct it as [p hd e|p hd rng cuse e|p hd rng flags e|p hd first|t d|bof recs];
     cbn [raw_cell spec_cell app map_o]; try exact IH.
   - (* FPlain *) unfold resolve_cell at 1. cbn [fst snd obind]. rewrite IH. reflexivity.
   - (* FShared: the group is its own first cell *)
@@ -450,12 +483,15 @@ Qed.
 (* the formula cells of a sheet, from its records: every FORMULA cell in stream order; a plain cell
    with the A1 text of its own tokens, every cell of a shared group with the group's expression
    translated to the cell's own position, every cell of an array group with the array's expression *)
-Theorem sheet_formulas_spec : forall l, wf_layout sheets names xtis l ->
-  xls_sheet_formulas show_f64 unrecognised sheets names xtis (flat_map enc_fitem l) = Ok (spec l).
+Theorem sheet_formulas_spec : forall l bof after, wf_layout sheets names xtis l ->
+  xls_sheet_formulas show_f64 unrecognised sheets names xtis (enc_fsheet bof l after) = Ok (spec l).
 Proof.
-  intros l [Hwf Hnd]. unfold xls_sheet_formulas.
-  destruct (loop_enc l {| fs_pos := (0, 0); fs_cells := []; fs_shared := [] |} Hwf) as [p' E].
-  rewrite E. cbn [obind fs_cells fs_shared app].
+  intros l bof after [Hwf Hnd]. unfold xls_sheet_formulas, enc_fsheet.
+  cbn [xls_formula_loop]. change (0x0809 =? 0x0809) with true. cbv iota. change (0 + 1) with 1.
+  destruct (loop_enc l {| fs_pos := (0, 0); fs_cells := []; fs_shared := [] |} ((0x000A, []) :: after) Hwf)
+    as [p' E].
+  rewrite E. cbn [xls_formula_loop]. change (0x000A =? 0x0809) with false. change (1 <? 1) with false.
+  change (0x000A =? 0x000A) with true. cbv iota. cbn [obind fs_cells fs_shared app].
   apply resolve_enc; [exact Hwf|exact Hnd|auto].
 Qed.
 
@@ -471,14 +507,14 @@ Lemma group_of_unique : forall l first g it, NoDup (flat_map first_of l) -> In i
 Proof.
   induction l as [|it0 l IH]; intros first g it Hnd Hin Hm; [contradiction|].
   cbn [group_of flat_map] in *. destruct Hin as [->|Hin].
-  - destruct it as [p hd e|p hd rng cuse e|p hd rng flags e|p hd f0|t d]; try contradiction;
+  - destruct it as [p hd e|p hd rng cuse e|p hd rng flags e|p hd f0|t d|bof recs]; try contradiction;
       destruct Hm as [-> ->];
       replace (pos_eqb first first) with true by (symmetry; apply pos_eqb_true; reflexivity); reflexivity.
   - assert (Hf : In first (flat_map first_of l)).
     { apply in_flat_map. exists it. split; [exact Hin|].
-      destruct it as [p hd e|p hd rng cuse e|p hd rng flags e|p hd f0|t d]; try contradiction;
+      destruct it as [p hd e|p hd rng cuse e|p hd rng flags e|p hd f0|t d|bof recs]; try contradiction;
         destruct Hm as [-> _]; left; reflexivity. }
-    destruct it0 as [p0 hd0 e0|p0 hd0 rng0 cuse0 e0|p0 hd0 rng0 fl0 e0|p0 hd0 f0|t d]; cbn [first_of app] in Hnd;
+    destruct it0 as [p0 hd0 e0|p0 hd0 rng0 cuse0 e0|p0 hd0 rng0 fl0 e0|p0 hd0 f0|t d|bof recs]; cbn [first_of app] in Hnd;
       try (eapply IH; eassumption).
     + inversion Hnd as [|? ? Hni Hnd']; subst. destruct (pos_eqb p0 first) eqn:E.
       * apply pos_eqb_true in E. subst p0. contradiction.
@@ -489,14 +525,14 @@ Proof.
 Qed.
 
 (* a member cell of a shared group: the shared expression seen from the member's own position *)
-Theorem shared_formula_members_xls : forall l p hd first phd rng cuse e r,
+Theorem shared_formula_members_xls : forall l bof after p hd first phd rng cuse e r,
   wf_layout sheets names xtis l ->
   In (FShared first phd rng cuse e) l -> In (FMember p hd first) l ->
-  xls_sheet_formulas show_f64 unrecognised sheets names xtis (flat_map enc_fitem l) = Ok r ->
+  xls_sheet_formulas show_f64 unrecognised sheets names xtis (enc_fsheet bof l after) = Ok r ->
   In (p, rend (Some p) e) r /\ In (first, rend (Some first) e) r.
 Proof.
-  intros l p hd first phd rng cuse e r Hwf Hs Hm Hr.
-  rewrite (sheet_formulas_spec l Hwf) in Hr. injection Hr as <-. destruct Hwf as [Hwf Hnd].
+  intros l bof after p hd first phd rng cuse e r Hwf Hs Hm Hr.
+  rewrite (sheet_formulas_spec l bof after Hwf) in Hr. injection Hr as <-. destruct Hwf as [Hwf Hnd].
   assert (G : group_of l first = Some (false, e)).
   { apply (group_of_unique l first (false, e) (FShared first phd rng cuse e) Hnd Hs). split; reflexivity. }
   split.
@@ -505,14 +541,14 @@ Proof.
 Qed.
 
 (* every cell of an array formula: the array's expression, the same text whatever the cell *)
-Theorem array_formula_members_xls : forall l p hd first phd rng flags e r,
+Theorem array_formula_members_xls : forall l bof after p hd first phd rng flags e r,
   wf_layout sheets names xtis l ->
   In (FArray first phd rng flags e) l -> In (FMember p hd first) l ->
-  xls_sheet_formulas show_f64 unrecognised sheets names xtis (flat_map enc_fitem l) = Ok r ->
+  xls_sheet_formulas show_f64 unrecognised sheets names xtis (enc_fsheet bof l after) = Ok r ->
   In (p, rend None e) r /\ In (first, rend None e) r.
 Proof.
-  intros l p hd first phd rng flags e r Hwf Hs Hm Hr.
-  rewrite (sheet_formulas_spec l Hwf) in Hr. injection Hr as <-. destruct Hwf as [Hwf Hnd].
+  intros l bof after p hd first phd rng flags e r Hwf Hs Hm Hr.
+  rewrite (sheet_formulas_spec l bof after Hwf) in Hr. injection Hr as <-. destruct Hwf as [Hwf Hnd].
   assert (G : group_of l first = Some (true, e)).
   { apply (group_of_unique l first (true, e) (FArray first phd rng flags e) Hnd Hs). split; reflexivity. }
   split.
@@ -535,6 +571,17 @@ Definition ex_shared_layout : list fitem :=
       (EBin 3 (EBin 5 (ERefN CVal (rel 0 255)) (EInt 2))
               (ERef CVal {| cr_row := 0; cr_col := 2; cr_row_rel := false; cr_col_rel := false |}));
     FOther 0x0203 [2; 0; 0; 0; 0; 0; 0; 0; 0; 0; 0; 0; 0; 0];
+    (* an embedded chart between the cells of the group.  Its substream holds a FORMULA record at
+       B2 — the first cell of the group above — with a formula of its own, a SHRFMLA record that
+       would replace the group's expression, an ARRAY record, a FORMULA too short to be one, and a
+       further BOF … EOF pair around another FORMULA: nothing of it is a formula of the sheet *)
+    FSub [0; 6; 32; 0]
+      [(0x1001, [0; 0]); (0x0203, [1; 0; 1; 0; 0; 0; 0; 0; 0; 0; 0; 0; 0; 0]);
+       (0x0006, [1; 0; 1; 0] ++ ex_hd ++ [3; 0; 0x1E; 9; 0]);
+       (0x04BC, [1; 0; 3; 0; 1; 1; 0; 3; 3; 0; 0x1E; 8; 0]);
+       (0x0221, [1; 0; 3; 0; 1; 1; 0; 0; 0; 0; 0; 0; 3; 0; 0x1E; 7; 0]);
+       (0x0006, [1; 2; 3]);
+       (0x0809, []); (0x0006, [9; 0; 9; 0] ++ ex_hd ++ [3; 0; 0x1E; 6; 0]); (0x000A, [])];
     FMember (2, 1) ex_hd (1, 1);
     FMember (3, 1) ex_hd (1, 1);
     (* {=SUM(A1:B2)} over A6:B7 *)
@@ -545,7 +592,8 @@ Definition ex_shared_layout : list fitem :=
 
 Example shared_formula_nonvacuous :
   wf_layout [] [] [] ex_shared_layout /\
-  xls_sheet_formulas (fun _ => []) (fun _ _ => []) [] [] [] (flat_map enc_fitem ex_shared_layout)
+  xls_sheet_formulas (fun _ => []) (fun _ _ => []) [] [] []
+    (enc_fsheet [0; 6; 16; 0] ex_shared_layout [(0x0809, []); (0x0006, [1; 2])])
   = Ok [((0, 3), lit "SUM(D65536:E$2)"); ((0, 4), lit "SUM(E65536:F$2)");
         ((1, 1), lit "A2*2+$C$1"); ((2, 1), lit "A3*2+$C$1"); ((3, 1), lit "A4*2+$C$1");
         ((5, 0), lit "SUM(A1:B2)"); ((5, 1), lit "SUM(A1:B2)"); ((6, 0), lit "SUM(A1:B2)"); ((6, 1), lit "SUM(A1:B2)")].
